@@ -1,0 +1,9 @@
+//go:build verif
+
+package textfield
+
+// Hook for the verification harness in /verif (property C17).  Add-only, guarded
+// by the build tag "verif": a read-only snapshot of the unexported editing state.
+
+// VerifState returns the cursor index and the cached grapheme count.
+func (tf *TextField) VerifState() (cursor uint, n uint) { return tf.cursor, tf.n }
